@@ -217,3 +217,84 @@ class Tracer:
 
 def dense(X):
     return X.toarray() if sparse.issparse(X) else np.asarray(X, dtype=float)
+
+
+DESCENT = {"AndersonCD", "ProxNewton", "GroupBCD", "GroupProxNewton", "MultiTaskBCD", "GramCD"}
+CERT = DESCENT | {"LBFGS"}
+
+
+class AutoTracer:
+    """Sink that opens one Tracer per BaseSolver.solve call, whoever makes the call (path(), fit(),
+    a user loop). The problem of each call is read from the live objects at its `init` event
+    (penalty.alpha as it is THEN), so every step is judged against the problem it was asked."""
+
+    def __init__(self, meta=None, tol_floor=0.0):
+        self.meta = dict(meta or {})
+        self.traces = []
+        self.cur = None
+        self.n = 0
+        self.path_steps = []
+        self.fit_solves = []
+
+    def sink(self, kind, f):
+        from . import skl
+        if kind == "solve_call":
+            self._pending_call = f
+            return
+        if kind == "init":
+            slv = f["solver"]
+            name = type(slv).__name__
+            pend = skl.describe_penalty(f["penalty"])
+            dfd = skl.describe_datafit(f["datafit"])
+            fi = bool(getattr(slv, "fit_intercept", False)) and name not in ("GramCD", "FISTA", "LBFGS",
+                                                                                "PDCD_WS")
+            prob = dict(X=dense(f["X"]), y=np.array(f["y"], dtype=float, copy=True), datafit=dfd,
+                        penalty=pend, fit_intercept=fi)
+            strategy = getattr(slv, "ws_strategy", getattr(slv, "opt_strategy", "subdiff"))
+            self.n += 1
+            tr = Tracer(prob, float(slv.tol), strategy=strategy,
+                        family="pn" if name == "ProxNewton" else "cd",
+                        meta=dict(self.meta, solver=name, datafit=dfd["kind"], penalty=pend["kind"],
+                                  alpha=pend.get("alpha"), step=self.n,
+                                  fit_intercept=fi, strategy=strategy))
+            from .oracle import penalties as OP
+            tr.flags = dict(descent=int(name in DESCENT and OP.is_convex(pend)), cert=int(name in CERT),
+                            critval=int(name in CERT or name == "FISTA"),
+                            haswouter=int(name != "LBFGS"))
+            self.cur = tr
+            tr.sink(kind, f)
+            return
+        if kind == "solve_return":
+            if self.cur is not None:
+                self.cur.ret(f["res"], None, f.get("w_init"), f.get("Xw_init"))
+                self._close()
+            return
+        if kind == "solve_raise":
+            if self.cur is not None:
+                self.cur.ret(None, f["exc"])
+                self._close()
+            return
+        if kind == "path_step":
+            self.path_steps.append(dict(t=int(f["t"]), alpha=float(f["alpha"])))
+            return
+        if kind == "fit_solve":
+            self.fit_solves.append(dict(n_iter=len(f["p_obj"]), kkt=float(np.max(f["kkt"]))))
+            return
+        if self.cur is not None:
+            self.cur.sink(kind, f)
+
+    def _close(self):
+        tr = self.cur
+        t = tr.trace(self.n)
+        t.update(tr.flags)
+        self.traces.append(t)
+        self.cur = None
+
+    def install(self):
+        from skglm import _verif
+        self._prev = _verif.set_sink(self.sink)
+        return self
+
+    def remove(self):
+        from skglm import _verif
+        _verif.set_sink(self._prev)
